@@ -635,6 +635,10 @@ class ReadSetReader:
         if any(alt.startswith("<") for alt in variant.get_alt_allele_list()):
             return None, None
 
+        # A missing genotype (such as ./.) leaves no allele to choose from
+        if restricted_variants is not None and restricted_variants.is_none():
+            return None, None
+
         left_cigar_iterator = ReadSetReader.split_cigar_left(cigartuples, i, consumed)
         right_cigar_iterator = ReadSetReader.split_cigar_right(cigartuples, i, consumed)
 
